@@ -145,7 +145,7 @@ def archer(ctx, batches, res, argvecs, stats, threads, fan):
             return bi, "build", out[-3000:]
         outs = []
         for nt in threads:
-            env = {"OMP_NUM_THREADS": str(nt), "OMP_TOOL_LIBRARIES": ARCHER,
+            env = {"OMP_NUM_THREADS": str(nt), "OMP_WAIT_POLICY": "passive", "OMP_TOOL_LIBRARIES": ARCHER,
                    "TSAN_OPTIONS": "ignore_noninstrumented_modules=1:exitcode=0:halt_on_error=0:report_bugs=1:second_deadlock_stack=0",
                    "ARCHER_OPTIONS": "verbose=0"}
             rc, out = sh([exe], timeout=1800, env=env)
